@@ -86,6 +86,14 @@ def oracle_small(inst, obs, nmax, collect=None):
         x = [1 if q == k else 0 for q in range(n)]
         return (f"objective entry {k} is {obs['c'][k] if k < len(obs['c']) else None} but arc "
                 f"({vm[k][0]},{vm[k][2]}) of {vm[k]} costs {costs[k]}", [], x)
+    # variables = admissible moves (C05_vars_admissible), over nodes x grid x nodes x grid
+    if len(set(grid)) == len(grid):
+        nn = len(snap[1])
+        space = [(i, s, j, t) for i in range(nn) for s in grid for j in range(nn) for t in grid]
+        want = sorted(v for v in space if ac.admissible(snap, grid, v))
+        if sorted(vm) != want:
+            miss = [v for v in want if v not in vm] + [v for v in vm if v not in want]
+            return (f"variables differ from the admissible moves, e.g. {miss[0]}", [], None)
     if len(obs["b"]) != obs["shape"][0] or obs["shape"][1] != n:
         return (f"shape of A {obs['shape']} does not match len(b) = {len(obs['b'])}, n = {n}", [], None)
     if n > nmax:
@@ -358,7 +366,8 @@ def run(ctx):
         dist["unsorted_grid"] += list(inst["grid"]) != sorted(inst["grid"])
         msg, feas, badx = oracle_small(inst, obs, nmax)
         if msg:
-            kind = "objective" if msg.startswith("objective") else "shape" if msg.startswith("shape") else "feasible-set"
+            kind = ("objective" if msg.startswith("objective") else "shape" if msg.startswith("shape") else
+                    "variables" if msg.startswith("variables") else "feasible-set")
             report(f"oracle/arc/{kind}", msg, inst, badx, lambda c: fails(c, 12))
         decs = []
         if feas is not None:
